@@ -159,7 +159,7 @@ def domain_of(prop):
                     if len(t) == 4 and t[0] == "C":
                         txt = bytes.fromhex(t[3]).decode()
                         req = txt[4:].strip().strip("\0").split(" ") if txt.startswith("CMD ") else []
-                        if req and req[0] in FORMS and not all(DECIMAL.fullmatch(x) for x in req[1:]):
+                        if req and (req[0] in FORMS or req[0] == "SETFH") and not all(DECIMAL.fullmatch(x) for x in req[1:]):
                             return False
                 except (ValueError, UnicodeDecodeError, IndexError):
                     pass
